@@ -33,7 +33,7 @@ def run(ctx):
     chanlib.standard_run(ctx, "Fv.Props.C04", THEOREMS, [
         "C04_F3_conversion_resets_closed.case", "C04_F3_mpmc_async_futures_ignore_closed.case",
         "C04_F3_rdv_async_futures_ignore_closed.case", "C04_N1_mpmc_disconnected_before_drain.case",
-        "C04_OBS_oneshot_recv_after_taken.case", "C04_N6_spsc_async_close_window.case"])
+        "C04_OBS_oneshot_recv_after_taken.case"])   # N6 (spsc close window) is fixed: corpus/chan/C04_N6_fixed_spsc_async_close_window.case
     if not ctx.replay:
         _topic(ctx)
     chanlib.layer_b(ctx, chanlib.LAYER_B_ALL)
